@@ -104,8 +104,14 @@ fn workspace_strategy() -> impl Strategy<Value = Workspace> {
                 if nested && c == 0 && !deps.contains(&CDep::Libcnb(1)) {
                     deps.push(CDep::Libcnb(1));
                 }
+                // in some workspaces the LAST composite is the workspace root itself (a meta-buildpack repository: its
+                // buildpack.toml sits next to the workspace's Cargo.toml) and depends on the first composite
+                let at_root = !linked && ncomp.min(3) >= 2 && c + 1 == ncomp.min(3) && (nrust + others) % 2 == 0;
+                if at_root && !deps.contains(&CDep::Libcnb(nrust)) {
+                    deps.push(CDep::Libcnb(nrust));
+                }
                 // the second composite's id differs from the first Rust buildpack's only in letter case
-                Composite { id: if c == 1 { "acme/Rust-0".to_string() } else { format!("acme/meta-{c}") }, dir: format!("meta/composite-{c}"), deps }
+                Composite { id: if c == 1 { "acme/Rust-0".to_string() } else { format!("acme/meta-{c}") }, dir: if at_root { ".".to_string() } else { format!("meta/composite-{c}") }, deps }
             })
             .collect();
         Workspace { rust, composites, others, linked }
@@ -519,7 +525,13 @@ fn check_workspace(scratch: &Path, w: &Workspace, invs: &[Invocation], idx: usiz
             if linked_node.is_some() {
                 out.classes.push("workspace-with-linked-buildpack-dir".into());
             }
+            // a workspace root that is itself a buildpack selects that buildpack, not everything
+            let root_is_buildpack = w.composites.last().map(|c| c.dir == ".").unwrap_or(false);
+            if root_is_buildpack {
+                out.classes.push("workspace-root-is-a-composite-buildpack".into());
+            }
             let roots: Vec<usize> = match &inv.cwd {
+                Cwd::Root if root_is_buildpack => vec![w.nnodes() - 1],
                 Cwd::Root => all.clone(),
                 Cwd::Node(n) => vec![*n % w.nnodes()],
                 Cwd::Elsewhere => vec![],
@@ -565,7 +577,7 @@ fn check_workspace(scratch: &Path, w: &Workspace, invs: &[Invocation], idx: usiz
                 let dirs: BTreeSet<String> = std::fs::read_dir(&prof).map(|rd| rd.flatten().map(|e| e.file_name().to_string_lossy().to_string()).collect()).unwrap_or_default();
                 let want_dirs: BTreeSet<String> = expected.iter().map(|n| w.node_id(*n).replace('/', "_")).collect();
                 let unexpected: Vec<&String> = dirs.difference(&want_dirs).collect();
-                ensure!(unexpected.is_empty() || inv.cwd != Cwd::Root, "C15:unexpected-output-directory", "{unexpected:?}");
+                ensure!(unexpected.is_empty() || inv.cwd != Cwd::Root || root_is_buildpack, "C15:unexpected-output-directory", "{unexpected:?}");
                 Ok(())
             };
             validate(&o, &clean).map_err(|f| (f, case(&clean)))?;
@@ -611,7 +623,7 @@ fn check_workspace(scratch: &Path, w: &Workspace, invs: &[Invocation], idx: usiz
 }
 
 pub fn run(ctx: &Ctx) {
-    ctx.set_rule("generated Cargo workspaces (1-3 dependency-free libcnb.rs buildpack crates with 1-3 binary targets whose main functions print distinct tokens, 0-3 composite buildpacks whose package.toml mixes libcnb:, relative-path and docker dependencies forming a DAG, 0-2 non-libcnb buildpack directories, ids with one or two '/' where one id is a '/'-prefix of another and two ids differ only in letter case, nested locations (also a crate buildpack inside the directory of the composite that depends on it), in 3 of 10 workspaces one composite's directory being a symbolic link to a directory outside the workspace, an .ignore file for output and target directories) packaged by the REAL cargo-libcnb binary built from /repo (--target x86_64-unknown-linux-gnu --no-cross-compile-assistance): from the workspace root, from each buildpack directory and from an unrelated directory; dev/--release; default, relative and absolute --package-dir; each over a clean output directory and over output directories pre-seeded with foreign files/dirs/symlinks, with a truncated earlier output (interrupted-run model: random subset of a real output deleted or cut in half) with an output of a different workspace revision, or with a complete earlier output whose descriptors are current but whose binaries are old (always tried once from a composite's own directory). Oracle: exit 0; for exactly the selected buildpacks and their transitive libcnb: dependencies a directory with byte-identical buildpack.toml, bin/build byte-identical to the compiled main target, bin/detect a symbolic link resolving to bin/build (or a hard link to it), every extra binary under .libcnb-cargo/additional-bin/<target name>, package.toml (decoded: uri '.' and no dependencies for libcnb.rs buildpacks; normalised descriptor decoded with Python tomllib for composites) and no other entry; stdout lines = the selected buildpacks' output directories; snapshot after a pre-seeded run == snapshot of the clean run; no entry besides the listed ones except empty directories; a run from an unrelated directory is executed but not judged. Non-trivial: selection contains a composite with >= 1 libcnb: dependency AND the run starts from a pre-seeded output directory; distinct = hash of (workspace, invocation).");
+    ctx.set_rule("generated Cargo workspaces (1-3 dependency-free libcnb.rs buildpack crates with 1-3 binary targets whose main functions print distinct tokens, 0-3 composite buildpacks whose package.toml mixes libcnb:, relative-path and docker dependencies forming a DAG, 0-2 non-libcnb buildpack directories, ids with one or two '/' where one id is a '/'-prefix of another and two ids differ only in letter case, nested locations (also a crate buildpack inside the directory of the composite that depends on it), in some workspaces the last composite being the workspace root itself (next to the workspace's Cargo.toml, depending on the first composite), in 3 of 10 workspaces one composite's directory being a symbolic link to a directory outside the workspace, an .ignore file for output and target directories) packaged by the REAL cargo-libcnb binary built from /repo (--target x86_64-unknown-linux-gnu --no-cross-compile-assistance): from the workspace root, from each buildpack directory and from an unrelated directory; dev/--release; default, relative and absolute --package-dir; each over a clean output directory and over output directories pre-seeded with foreign files/dirs/symlinks, with a truncated earlier output (interrupted-run model: random subset of a real output deleted or cut in half) with an output of a different workspace revision, or with a complete earlier output whose descriptors are current but whose binaries are old (always tried once from a composite's own directory). Oracle: exit 0; for exactly the selected buildpacks and their transitive libcnb: dependencies a directory with byte-identical buildpack.toml, bin/build byte-identical to the compiled main target, bin/detect a symbolic link resolving to bin/build (or a hard link to it), every extra binary under .libcnb-cargo/additional-bin/<target name>, package.toml (decoded: uri '.' and no dependencies for libcnb.rs buildpacks; normalised descriptor decoded with Python tomllib for composites) and no other entry; stdout lines = the selected buildpacks' output directories; snapshot after a pre-seeded run == snapshot of the clean run; no entry besides the listed ones except empty directories; a run from an unrelated directory is executed but not judged. Non-trivial: selection contains a composite with >= 1 libcnb: dependency AND the run starts from a pre-seeded output directory; distinct = hash of (workspace, invocation).");
     ctx.assume("the musl target is not installed in this sandbox: the host gnu triple is passed explicitly, cross-compile assistance is not exercised");
     if !cargo_libcnb().exists() {
         ctx.inconclusive("cargo-libcnb has not been built (run ./setup.sh)");
